@@ -88,18 +88,87 @@ pub fn with_res(r: &Res, k: &mut dyn FnMut(&dyn Aml)) {
     }
 }
 
-fn with_res_list<'a>(rs: &[Res], acc: Vec<&'a dyn Aml>, k: &mut dyn FnMut(Vec<&dyn Aml>)) {
-    match rs.split_first() {
-        None => k(acc),
-        Some((r, rest)) => with_res(r, &mut |o: &dyn Aml| {
-            let mut v: Vec<&dyn Aml> = acc.clone();
-            v.push(o);
-            with_res_list(rest, v, k)
-        }),
+pub fn res_obj(r: &Res) -> Box<dyn Aml> {
+    match r {
+        Res::Memory32Fixed { rw, base, len } => Box::new(aml::Memory32Fixed::new(*rw, *base, *len)),
+        Res::Io { min, max, align, len } => Box::new(aml::IO::new(*min, *max, *align, *len)),
+        Res::Interrupt { consumer, edge, active_low, shared, number } => Box::new(aml::Interrupt::new(*consumer, *edge, *active_low, *shared, *number)),
+        Res::Register(g) => Box::new(aml::Register::new(mk_gas(g))),
+        Res::AddrSpace { width, ty, min, max, translation } => match width {
+            16 => {
+                let (mn, mx, tr) = (*min as u16, *max as u16, translation.map(|t| t as u16));
+                match ty {
+                    AsType::Memory(c, rw) => Box::new(aml::AddressSpace::new_memory(cacheable(*c), *rw, mn, mx, tr)),
+                    AsType::Io => Box::new(aml::AddressSpace::new_io(mn, mx, tr)),
+                    AsType::Bus => Box::new(aml::AddressSpace::new_bus_number(mn, mx)),
+                }
+            }
+            32 => {
+                let (mn, mx, tr) = (*min as u32, *max as u32, translation.map(|t| t as u32));
+                match ty {
+                    AsType::Memory(c, rw) => Box::new(aml::AddressSpace::new_memory(cacheable(*c), *rw, mn, mx, tr)),
+                    AsType::Io => Box::new(aml::AddressSpace::new_io(mn, mx, tr)),
+                    AsType::Bus => Box::new(aml::AddressSpace::new_bus_number(mn, mx)),
+                }
+            }
+            _ => {
+                let (mn, mx, tr) = (*min, *max, *translation);
+                match ty {
+                    AsType::Memory(c, rw) => Box::new(aml::AddressSpace::new_memory(cacheable(*c), *rw, mn, mx, tr)),
+                    AsType::Io => Box::new(aml::AddressSpace::new_io(mn, mx, tr)),
+                    AsType::Bus => Box::new(aml::AddressSpace::new_bus_number(mn, mx)),
+                }
+            }
+        },
     }
 }
 
+fn with_res_list(rs: &[Res], k: &mut dyn FnMut(Vec<&dyn Aml>)) {
+    // descriptors are self-contained objects: build them all, then lend references
+    let objs: Vec<Box<dyn Aml>> = rs.iter().map(res_obj).collect();
+    k(objs.iter().map(|b| &**b).collect())
+}
+
+/// self-contained terms (no borrowed children) as owned objects
+fn boxed(t: &Term) -> Option<Box<dyn Aml>> {
+    Some(match t {
+        Term::Zero => Box::new(aml::Zero {}),
+        Term::One => Box::new(aml::One {}),
+        Term::Ones => Box::new(aml::Ones {}),
+        Term::U8(v) => Box::new(*v),
+        Term::U16(v) => Box::new(*v),
+        Term::U32(v) => Box::new(*v),
+        Term::U64(v) => Box::new(*v),
+        Term::Usize(v) => Box::new(*v as usize),
+        Term::Str(s) => Box::new(s.clone()),
+        Term::StaticStr(s) => Box::new(intern(s)),
+        Term::Path(p) => Box::new(path(p)),
+        Term::FieldName(s) => Box::new(aml::Name::new_field_name(s)),
+        Term::Eisa(s) => Box::new(aml::EISAName::new(s)),
+        Term::Uuid(s) => Box::new(aml::Uuid::new(s)),
+        Term::BufferData(d) => Box::new(aml::BufferData::new(d.clone())),
+        Term::Mutex(p, s) => Box::new(aml::Mutex::new(path(p), *s)),
+        Term::Acquire(p, t) => Box::new(aml::Acquire::new(path(p), *t)),
+        Term::Release(p) => Box::new(aml::Release::new(path(p))),
+        Term::Arg(n) => Box::new(aml::Arg(*n)),
+        Term::Local(n) => Box::new(aml::Local(*n)),
+        Term::Filler(n) => Box::new(Raw(filler_bytes(*n))),
+        _ => return None,
+    })
+}
+
 pub fn with_list<'a>(ts: &[Term], acc: Vec<&'a dyn Aml>, k: &mut dyn FnMut(Vec<&dyn Aml>)) {
+    if ts.len() > 4 {
+        // long lists of self-contained terms: linear time, no recursion
+        let objs: Vec<Option<Box<dyn Aml>>> = ts.iter().map(boxed).collect();
+        if objs.iter().all(|o| o.is_some()) {
+            let mut v: Vec<&dyn Aml> = acc.clone();
+            for o in &objs {
+                v.push(&**o.as_ref().unwrap());
+            }
+            return k(v);
+        }
+    }
     match ts.split_first() {
         None => k(acc),
         Some((t, rest)) => with_aml(t, &mut |o: &dyn Aml| {
@@ -163,7 +232,7 @@ pub fn with_aml(t: &Term, k: &mut dyn FnMut(&dyn Aml)) {
         Term::Uuid(s) => k(&aml::Uuid::new(s)),
         Term::BufferTerm(s) => with_aml(s, &mut |x| k(&aml::BufferTerm::new(x))),
         Term::BufferData(d) => k(&aml::BufferData::new(d.clone())),
-        Term::ResourceTemplate(rs) => with_res_list(rs, Vec::new(), &mut |v| k(&aml::ResourceTemplate::new(v))),
+        Term::ResourceTemplate(rs) => with_res_list(rs, &mut |v| k(&aml::ResourceTemplate::new(v))),
         Term::Device(p, c) => with_list(c, Vec::new(), &mut |v| k(&aml::Device::new(path(p), v))),
         Term::Scope(p, c) => with_list(c, Vec::new(), &mut |v| k(&aml::Scope::new(path(p), v))),
         Term::ScopeRaw(p, c) => {
